@@ -14,7 +14,7 @@ ALL_STARTS = ["array", "array_const", "static_array", "static_array_const", "arr
 def run(tier):
     rep = vlib.Report("C16", tier)
     wd = vlib.workdir("c16")
-    c = {"Dims": {1, 2, 3}, "StartKinds": set(ALL_STARTS), "MaxLen": 2 if tier == "quick" else 3, "MaxViewD": 4, "CEmit": True}
+    c = {"Dims": {1, 2, 3, 4, 5}, "StartKinds": set(ALL_STARTS), "MaxLen": 2 if tier == "quick" else 3, "MaxViewD": 4, "CEmit": True}
     cfg = os.path.join(wd, "c16.cfg")
     vlib.write_cfg(cfg, spec="KSpec", constants=c, properties=["NoEscalation"], constraints=["KEmitC"])
     res = vlib.run_tlc("Constness", cfg, "c16_paths")
@@ -74,8 +74,9 @@ def run(tier):
         per_step[r["steps"][-1]] = per_step.get(r["steps"][-1], 0) + 1
         names = [n for n, _ in gen_const.reaches(r["cat"], r["dim"], "")]
         vals = o[1:1 + len(names)]
-        accepts_assign = o[1 + len(names)] if len(o) > 1 + len(names) else None
-        swap_obs = o[2 + len(names)] if len(o) > 2 + len(names) else None
+        extra = dict(zip(gen_const.extra_names(r["cat"], r["dim"]), o[1 + len(names):]))
+        swap_obs = extra.get("s")
+        conv_obs = extra.get("c")
         key = (r["start"], r["D"], tuple(r["steps"]))
         if any((r["start"], r["D"], tuple(r["steps"][:k])) in failed for k in range(1, len(r["steps"]))):
             failed.add(key)
@@ -93,7 +94,14 @@ def run(tier):
                 failed.add(key)
                 rep.violation(dict(sig0, kind="swap_accepted_with_read_only_view"), {"path": r, "expr": gen_const.expr_of(r["steps"], "<start>")})
                 continue
+            if conv_obs == 1:
+                # a read-only iterator / elements range / cursor converts into (or is assignable to) its mutable counterpart
+                failed.add(key)
+                rep.violation(dict(sig0, kind="converts_to_mutable_counterpart"), {"path": r, "expr": gen_const.expr_of(r["steps"], "<start>")})
+                continue
         else:
+            if conv_obs is not None:
+                rep.cov["mutable_paths_converting_to_their_own_kind"] = rep.cov.get("mutable_paths_converting_to_their_own_kind", 0) + (1 if conv_obs == 1 else 0)
             if vals and vals[0] != 1:
                 failed.add(key)
                 rep.violation(dict(sig0, kind="not_writable_from_mutable", reach=names[0]),
